@@ -7,5 +7,5 @@ From Fibre Require Import Common.Base Cache.PolicySpec Cache.PolicyLru Cache.Pol
 
 Extraction Language OCaml.
 Set Extraction KeepSingleton.
-Extraction "model.ml"
+Extraction "model_policy.ml"
   prun LruP FifoP SieveP ClockP.
